@@ -267,6 +267,19 @@ func (g *gen) species(t taref.ElemType, recvBuf int) *Species {
 	pt := t
 	if r.Chance(55, 100) {
 		pt = other
+		if r.Chance(45, 100) {
+			// same element width, other conversion semantics (Int32/Uint32/Float32, Int8/Uint8/Uint8Clamped, ...): a byte copy
+			// instead of the element-wise Get/Set conversion is only visible for these pairs
+			var same []taref.ElemType
+			for c := taref.ElemType(0); c < taref.NumTypes; c++ {
+				if c != t && c.Size() == t.Size() && c.IsBigInt() == t.IsBigInt() {
+					same = append(same, c)
+				}
+			}
+			if len(same) > 0 {
+				pt = core.Pick(r, same)
+			}
+		}
 	}
 	s.T = int(pt)
 	switch r.PickW([]int{30, 25, 20, 15, 5}) {
@@ -384,6 +397,92 @@ func (g *gen) newView() *Op {
 	return op
 }
 
+// overlappingSource (40% of typed-array sources): creates a fresh source view of another element type over the same buffer whose byte
+// range overlaps the target's, so that set() has to pick the right copy direction / clone the source. Returns the new view id or -1.
+func (g *gen) overlappingSource(v *taref.TypedArray) int {
+	r := g.r
+	if v.Buf.Detached || v.Length < 2 || !r.Chance(40, 100) {
+		return -1
+	}
+	var cands []taref.ElemType
+	for c := taref.ElemType(0); c < taref.NumTypes; c++ {
+		if c != v.Type && c.IsBigInt() == v.Type.IsBigInt() && (c.Size() == v.Type.Size() || r.Chance(40, 100)) {
+			cands = append(cands, c)
+		}
+	}
+	if len(cands) == 0 {
+		return -1
+	}
+	st := core.Pick(r, cands)
+	es, tes := st.Size(), v.Type.Size()
+	tb, te := v.ByteOffset, v.ByteOffset+v.Length*tes
+	bufLen := len(v.Buf.Data)
+	sl := r.Range(1, v.Length*tes/es) // source elements (its converted length must fit into the target)
+	if sl > v.Length {
+		sl = v.Length
+	}
+	if sl < 1 {
+		return -1
+	}
+	// source start: somewhere from "ends just inside the target" to "starts just before the target's end"
+	lo := tb - sl*es + es
+	if lo < 0 {
+		lo = 0
+	}
+	hi := te - es
+	if hi+sl*es > bufLen {
+		hi = bufLen - sl*es
+	}
+	lo = (lo + es - 1) / es * es
+	hi = hi / es * es
+	if hi < lo {
+		return -1
+	}
+	so := lo + r.Intn((hi-lo)/es+1)*es
+	id := g.nextView
+	g.apply(&Op{K: "newView", V: v.Buf.ID, T: int(st), A: []Arg{num(float64(so)), num(float64(sl))}, Out: id, OutB: g.nextBuf})
+	if g.x.w.Views[id] == nil {
+		return -1
+	}
+	return id
+}
+
+// speciesUse returns an op on view id that goes through TypedArraySpeciesCreate (used right after a setCtor on that view so that the
+// installed species constructor is actually exercised while the view is still alive).
+func (g *gen) speciesUse(id int) *Op {
+	r := g.r
+	v := g.x.w.Views[id]
+	if v == nil {
+		return nil
+	}
+	b := v.Buf.ID
+	switch r.PickW([]int{40, 25, 20, 15}) {
+	case 0:
+		op := &Op{K: "slice", V: id, Out: g.nextView, OutB: g.nextBuf}
+		if r.Chance(60, 100) {
+			lo := r.Range(0, v.Length)
+			op.A = []Arg{num(float64(lo)), num(float64(r.Range(lo, v.Length)))}
+		} else if r.Chance(60, 100) {
+			op.A = []Arg{g.index(v.Length, b), g.index(v.Length, b)}
+		}
+		return op
+	case 1:
+		op := &Op{K: "subarray", V: id, Out: g.nextView, OutB: g.nextBuf}
+		if r.Chance(80, 100) {
+			op.A = []Arg{g.index(v.Length, b), g.index(v.Length, b)}
+		}
+		return op
+	case 2:
+		var rets []Arg
+		for i := 0; i < 3; i++ {
+			rets = append(rets, g.elem(v.Type, b))
+		}
+		return &Op{K: "map", V: id, A: []Arg{g.callback(b, v.Length, rets)}, Out: g.nextView, OutB: g.nextBuf}
+	}
+	rets := []Arg{{K: "b", B: true}, {K: "b", B: r.Bool()}, {K: "b", B: true}}
+	return &Op{K: "filter", V: id, A: []Arg{g.callback(b, v.Length, rets)}, Out: g.nextView, OutB: g.nextBuf}
+}
+
 func (g *gen) ops() []opGen {
 	r := g.r
 	view := func(f func(id int, v *taref.TypedArray) *Op) func(g *gen) *Op {
@@ -460,6 +559,11 @@ func (g *gen) ops() []opGen {
 			srcLen := 0
 			switch r.PickW([]int{45, 40, 15}) {
 			case 0: // typed array source: same / different type, same / different buffer
+				if ov := g.overlappingSource(v); ov >= 0 {
+					sv := g.x.w.Views[ov]
+					src, srcLen = viewRef(ov), sv.Length
+					break
+				}
 				sid, sv := g.pickView(func(s *taref.TypedArray) bool {
 					return r.Chance(20, 100) || s.Type.IsBigInt() == v.Type.IsBigInt()
 				})
@@ -976,6 +1080,11 @@ func genCase(c *core.Ctx) *Case {
 		}
 		if op := table[r.PickW(weights)].f(g); op != nil {
 			g.apply(op)
+			if op.K == "setCtor" && r.Chance(65, 100) {
+				if f := g.speciesUse(op.V); f != nil {
+					g.apply(f)
+				}
+			}
 		}
 	}
 	if len(g.cs.Ops) > 25 {
